@@ -44,6 +44,9 @@ def lens_data(optic):
            "NA": float(optic.aperture.value), "vig": bool(np.any(optic.fields.vx != 0) or np.any(optic.fields.vy != 0)),
            "n0": _f(optic.object_surface.material_post.n(optic.primary_wavelength)),
            "EPL": 0.0, "EPD": 0.0}
+    g0 = optic.object_surface.geometry
+    r0 = float(getattr(g0, "radius", math.inf))
+    out["Robj"] = r0 if (math.isfinite(r0) and not c["inf"]) else 0.0
     if not c["tel"]:
         # the paraxial entrance pupil of the lens as it is now: a fresh Paraxial object over the
         # current prescription, not whatever helper object the Optic happens to carry
@@ -75,7 +78,8 @@ def ray_events(optic, ld, Hx, Hy, P, wreq, rays, entry, pick=None):
               "thx": dy(thx), "thy": dy(thy), "rx": dy(rx), "ry": dy(ry), "tx": dy(tx), "ty": dy(ty),
               "EPL": dy(ld["EPL"]), "EPD": dy(ld["EPD"]), "zobj": dy(ld["zobj"]), "zmin": dy(ld["zmin"]),
               "NA": dy(ld["NA"]), "n0": dy(ld["n0"]), "vig": ld["vig"], "wreq": dy(float(wreq)),
-              "hasP": P is not None, "entry": entry}
+              "hasP": P is not None, "entry": entry,
+              "ocurved": bool(ld.get("Robj", 0.0) != 0.0), "Robj": dy(ld.get("Robj", 0.0))}
     out = []
     for r in idx:
         ev = dict(common)
